@@ -31,7 +31,10 @@ RULE = ("struct: class bodies = items {function, classmethod, staticmethod, prop
         "__attrs_init_subclass__ hook probes the class it receives AT THE TIME OF THE CALL (invokes every method / classmethod / "
         "staticmethod / property accessor / cached property that uses __class__ or super(), snapshots __slots__, dict keys, "
         "fields()); the same class object is afterwards built as a dict class and every field is assigned on both builds (hook "
-        "log, outcome, value). "
+        "log, outcome, value); every struct case may be preceded by 1-2 EARLIER classes (slotted or dict) built from the very same "
+        "body objects (function objects, classmethod/property/cached_property wrappers, user __getattr__, attr.ib()s) -- a "
+        "history the model does not see; on the class under test a failed lookup must be exactly AttributeError, hasattr False, "
+        "getattr-with-default the default, copy.copy / copy.deepcopy work. "
         "isub: every chain of <=3 (quick) / <=5 (thorough) levels over {plain, dict attrs, slotted attrs} x defines-hook, "
         "random longer ones. meta: initbuild class chains (C01/C02/C12 space) built with leaf slots on and off x call "
         "shapes (malformed included) x single-fault positions x operations. Non-trivial: struct = a function uses the class, "
@@ -55,6 +58,9 @@ ASSUMPTIONS = [
     "may hit K3), for a body-level __slots__ and for body keys shadowing inherited fields; multiple inheritance is exercised in "
     "the struct and isub parts only (initbuild's chains, used by the meta part, are single-inheritance); __set_name__ of foreign "
     "descriptors being re-run for the new class is observed as a runtime fact; ABCMeta abstract-method bookkeeping is not probed",
+    "struct: the earlier classes of a case's history are context only (their own defects are reported when they are the class "
+    "under test); the Lean model is a function of the class under test alone, so any influence of the history is a violation or a "
+    "disagreement; hasattr / getattr-default / copy / deepcopy are observed consequences of 'unknown attribute -> AttributeError'",
     "meta: construction is compared with the shared initializer model (C08_metamorphic is proved about it); ==, hash pattern, "
     "ordering, repr, assignment and deletion (hook traces), evolve, asdict/astuple, copy/deepcopy/pickle (protocols 0-5) are "
     "compared between the two builds directly: an observed relation (their models live in C03/C04/C06/C09-C13)",
@@ -250,6 +256,9 @@ def gen_struct(rng):
         for _ in range(rng.choice([0, 1, 2, 3, 4, 6])):
             acc.append([rng.choice([0, 0, 1]), rng.choice(avail)])
     hs["accesses"] = acc
+    # earlier classes built from the same body objects (harness-only: the model does not see them)
+    p_hist = 0.6 if cp_count else 0.3
+    hs["history"] = [rng.choice(["slots", "slots", "dict"]) for _ in range(rng.choice([1, 1, 2]))] if rng.random() < p_hist else []
     return hs
 
 
@@ -513,6 +522,7 @@ def dist(case, obs):
             "s.bases": "+".join(b["kind"] for b in hs["bases"]) or "-",
             "s.mixin": ((hs["mixin"] or {}).get("kind") or "-") + ("/first" if (hs["mixin"] or {}).get("first") else ""),
             "s.assignAgree": obs.get("assignAgree") if isinstance(obs, dict) else "?",
+            "s.history": "+".join(hs.get("history", [])) or "-",
             "s.hookCalls": len(obs.get("hookCalls", [])) if isinstance(obs, dict) else "?",
             "s.n_items": len(hs["items"]), "s.n_fields": len(hs["fields"]),
             "s.item_kinds": "+".join(sorted({s["k"] for _, s in hs["items"]})) or "-",
@@ -572,7 +582,7 @@ def shrink(case):
             cands.append(h2)
         for key, v in (("mixin", None), ("meta", "type"), ("api", "attr.s"), ("natural", False), ("frozen", False),
                        ("hook", False), ("cache_hash", False), ("doc", False), ("qualname", None), ("accesses", []),
-                       ("weakref_slot", True), ("body_slots", None)):
+                       ("weakref_slot", True), ("body_slots", None), ("history", [])):
             if hs.get(key) != v:
                 h2 = copy.deepcopy(hs)
                 h2[key] = v
@@ -588,6 +598,11 @@ def shrink(case):
             h2 = copy.deepcopy(hs)
             h2["cells"] = [c for c in hs["cells"] if c[0] in used_cells]
             cands.append(h2)
+        if len(hs.get("history", [])) > 1:
+            for i in range(len(hs["history"])):
+                h2 = copy.deepcopy(hs)
+                del h2["history"][i]
+                cands.append(h2)
         if len(hs["accesses"]) > 1:
             for i in range(len(hs["accesses"])):
                 h2 = copy.deepcopy(hs)
